@@ -104,11 +104,12 @@ func (s *receiveLog) missingSeqNumbers(skipLastN uint16, missingPacketSeqNums []
 	s.m.RLock()
 	defer s.m.RUnlock()
 
-	until := s.end - skipLastN
-	if until-s.lastConsecutive >= rtpbuffer.Uint16SizeHalf {
-		// until < s.lastConsecutive (counting for rollover)
+	// lastConsecutive trails end by at most size, so this difference does not wrap
+	if skipLastN > s.end-s.lastConsecutive {
+		// until < s.lastConsecutive
 		return nil
 	}
+	until := s.end - skipLastN
 
 	c := 0
 	for i := s.lastConsecutive + 1; i != until+1; i++ {
